@@ -17,6 +17,7 @@ From JB Require Import ContainWalk.
 From JB Require Import SetWalk.
 From JB Require Import ChainWalk.
 From JB Require Import NumOrd.
+From JB Require Import ValueApi.
 Extraction Language OCaml.
 Extraction "model.ml"
   to_vec write_to_vec enc parse_jsonb is_jsonb assoc_insert compact_encode num_decode num_decode_old num_cmp
@@ -42,4 +43,9 @@ Extraction "model.ml"
   concat_st delete_by_name_st delete_by_index_st array_insert_st object_insert_st object_delete_st object_pick_st
   strip_nulls_st delete_by_keypath_st array_distinct_st array_intersection_st array_except_st
   select_st get_by_path_st get_by_path_first_st get_by_path_array_st
-  run_b.
+  run_b
+  display_t value_is_scalar value_is_object value_is_array value_is_string value_is_number value_is_i64 value_is_u64 value_is_f64
+  value_is_boolean value_is_null value_as_i64 value_as_u64 value_as_f64 value_as_bool value_as_str value_as_number value_as_array
+  value_as_object value_array_length value_object_keys value_eq_variant value_get_by_name_ignore_case
+  from_i64 from_u64 from_f64 from_f32 from_bool from_string from_unit from_object from_vec from_pairs
+  lazy_of_value lazy_write_to_vec lazy_array_length_w.
